@@ -401,10 +401,9 @@ class simplify_chained_calls(FuncADLNodeTransformer):
         assert isinstance(func_f, ast.Lambda)
         func_g = selection
 
-        captured_arg = func_f.args.args[0].arg
-        captured_body = func_f.body
-        new_select = function_call("SelectMany", [captured_body, func_g])
-        new_select_lambda = lambda_build(captured_arg, new_select)
+        # (the lambda keeps its parameters as they are written: positional-only ones, defaults)
+        new_select = function_call("SelectMany", [lambda_body(func_f), func_g])
+        new_select_lambda = lambda_body_replace(func_f, new_select)
         new_select_many = function_call("SelectMany", [seq, new_select_lambda])
         # The nested SelectMany just built may itself be reducible - visit it like the other rules do.
         return self.visit(new_select_many)
